@@ -901,7 +901,7 @@ def entry_tpcn(ck, np, mcmc, modes_mod, modes, M, res, limit):
     for st in iter_states(res.dump_path, ("done",)):
         if not st["amb"] and len(st["zs"]) == 1:
             groups.setdefault((st["mi"], tuple(st["kinds"])), []).append(st)
-    cnt = dict(sweeps=0, walkers=0, folded=0)
+    cnt = dict(sweeps=0, walkers=0, folded=0, nonfinite_sweeps=0)
     rng = random.Random(ck.seed + 77)
     for (mi, kinds), sts in sorted(groups.items()):
         mode = modes[mi - 1]
@@ -915,18 +915,23 @@ def entry_tpcn(ck, np, mcmc, modes_mod, modes, M, res, limit):
         for i in range(0, len(sts), 3):
             chunk = sts[i:i + 3]
             n = len(chunk)
-            variant = "accept" if (i // 3) % 2 == 0 else "reject"
+            # accept: flat-ish likelihood, r = 0.  The other three are Kernel.tla's NonFiniteRule (alpha = 0 whatever r):
+            # reject: every proposal has log-likelihood -inf; nan: every proposal has log-likelihood NaN;
+            # inf2inf: the walkers' CURRENT log-likelihood is -inf as well (-inf - -inf = NaN)
+            variant = ("accept", "reject", "accept", "nan", "accept", "inf2inf")[(i // 3) % 6]
             U = np.array([[c * h for c in s["c"]] for s in chunk])
             inside_sweep = {"on": False}
 
             def lik(xb, _v=variant):
                 xb = np.asarray(xb, dtype=float)
                 out = -xb.sum(axis=1)
-                if _v == "reject" and inside_sweep["on"]:
-                    out = np.full(len(xb), -np.inf)   # zero likelihood at every proposal: alpha = 0, nothing moves
+                if _v != "accept" and inside_sweep["on"]:
+                    out = np.full(len(xb), np.nan if _v == "nan" else -np.inf)   # alpha = 0, nothing moves
                 return out, 2.0 * xb + 1.0
 
             l0, b0 = lik(U)
+            if variant == "inf2inf":
+                l0 = np.full(n, -np.inf)
             inside_sweep["on"] = True
             gq = [(4.0 / (s["sq2"] * s["sq2"]), s["scale"][0] / s["scale"][1]) for s in chunk]
             zq = [np.array(s["zs"][0], dtype=float) for s in chunk]
@@ -948,13 +953,14 @@ def entry_tpcn(ck, np, mcmc, modes_mod, modes, M, res, limit):
                 inside_sweep["on"] = False
             cnt["sweeps"] += 1
             cnt["walkers"] += n
+            cnt["nonfinite_sweeps"] += variant in ("nan", "inf2inf", "reject")
             if any(list(s["prop"]) != list(s["fol"]) for s in chunk):
                 cnt["folded"] += 1
             if bad is None:
                 close = lambda a_, b_: np.shape(a_) == np.shape(b_) and np.allclose(np.asarray(a_, dtype=float), b_, rtol=0.0, atol=TOL)  # noqa: E731
-                if variant == "reject":
-                    if not (close(out[0], U) and close(out[1], U) and close(out[2], l0) and close(out[3], b0)):
-                        bad = f"rejected sweep changed the records: u={out[0].tolist()} (was {U.tolist()})"
+                if variant != "accept":
+                    if not (close(out[0], U) and close(out[1], U) and np.array_equal(np.asarray(out[2]), l0) and close(out[3], b0)):
+                        bad = f"a proposal with log-likelihood {'NaN' if variant == 'nan' else '-inf'} was accepted: u={out[0].tolist()} (was {U.tolist()})"
                 else:
                     want = np.array([[float(Fraction(f, PD * 2 * M)) for f in s["fol"]] for s in chunk])
                     if not close(out[0], want):
@@ -967,8 +973,8 @@ def entry_tpcn(ck, np, mcmc, modes_mod, modes, M, res, limit):
                     lost(f"tpcn entry: gamma/normal/uniform draws consumed {(sr.ng, sr.nz, sr.nu)}, scripted {(n, n, 1)}, although every value agrees")
                     continue
             if bad:
-                ck.violation("entry:parallel_mcmc:tpcn", f"one sweep through tempest.mcmc.parallel_mcmc(sample='tpcn', periodic={per}, reflective={ref}) differs from "
-                             f"KernelTpcn.tla ({variant} variant): {bad}", {"mode": mode, "kinds": list(kinds), "states": chunk, "variant": variant, "M": M})
+                ck.violation("entry:parallel_mcmc:tpcn" if variant == "accept" else "nonfinite-loglik:accepted", f"one sweep through tempest.mcmc.parallel_mcmc(sample='tpcn', periodic={per}, reflective={ref}) differs from "
+                             f"KernelTpcn.tla / Kernel.tla NonFiniteRule ({variant} variant): {bad}", {"mode": mode, "kinds": list(kinds), "states": chunk, "variant": variant, "M": M})
     return cnt
 
 
